@@ -572,18 +572,26 @@ theorem cfgOK_of {d : DFA σ α} (hd : d.IsDict) (hnd : d.syms.Nodup) {key : α 
       rw [hS] at this ⊢
       exact sorted_isLast this
 
+/-- The configuration computed by the set-up part of `successors`. -/
+def setupCfg (d : DFA σ α) (key : α → Int) (o : SuccOpts) (first last : α) : SuccCfg σ α :=
+  { coacc := d.digraph.reachable d.finals true, first := first,
+    symSucc := symbolSucc (d.sortedSymbols key o.reverse) last }
+
 /-- Shape of the loop variables before the first iteration. -/
 theorem successorsCore_setup {d : DFA σ α} (wf : d.WF) (hd : d.IsDict) (hnd : d.syms.Nodup)
     (hne : d.syms ≠ []) {key : α → Int} (hk : d.KeyInj key) (input : Option (List α))
-    (hin : ∀ w0, input = some w0 → ∀ x ∈ w0, x ∈ d.syms) (o : SuccOpts) (fuel : Nat) :
-    ∃ (c : SuccCfg σ α) (s0 : SuccState σ α),
-      CfgOK d (dirKey key o.reverse) (d.sortedSymbols key o.reverse) c ∧
+    (hin : ∀ w0, input = some w0 → ∀ x ∈ w0, x ∈ d.syms) (o : SuccOpts) :
+    ∃ (first last : α) (s0 : SuccState σ α),
+      (d.sortedSymbols key o.reverse).head? = some first ∧
+      (d.sortedSymbols key o.reverse).getLast? = some last ∧
+      CfgOK d (dirKey key o.reverse) (d.sortedSymbols key o.reverse) (setupCfg d key o first last) ∧
       SInv d (d.sortedSymbols key o.reverse) s0 ∧
-      d.successorsCore (.ok true) d.digraph key input o fuel = succLoop d o c fuel s0 ∧
+      (∀ fuel, d.successorsCore (.ok true) d.digraph key input o fuel =
+        succLoop d o (setupCfg d key o first last) fuel s0) ∧
       s0.chars.reverse = input.getD [] ∧
       s0.cand = (match input, o.reverse with
         | some _, true => none
-        | _, _ => some c.first) ∧
+        | _, _ => some first) ∧
       s0.shouldYield = (match input with
         | none => true
         | some _ => !o.strict) := by
@@ -600,17 +608,19 @@ theorem successorsCore_setup {d : DFA σ α} (wf : d.WF) (hd : d.IsDict) (hnd : 
     cases h : (d.sortedSymbols key o.reverse).getLast? with
     | none => exact absurd (List.getLast?_eq_none_iff.mp h) hSne
     | some l => exact ⟨l, rfl⟩
-  have cok := cfgOK_of hd hnd hk o.reverse hf hl
+  have cok : CfgOK d (dirKey key o.reverse) (d.sortedSymbols key o.reverse)
+      (setupCfg d key o first last) := cfgOK_of hd hnd hk o.reverse hf hl
   cases input with
   | none =>
-    refine ⟨_, ⟨[some d.init], [], some first, true⟩, cok, ?_, ?_, rfl, ?_, rfl⟩
+    refine ⟨first, last, ⟨[some d.init], [], some first, true⟩, hf, hl, cok, ?_, ?_, rfl, ?_, rfl⟩
     · exact ⟨StackOK.base, by simp, fun a ha => by cases ha; exact cok.first.mem⟩
-    · simp only [successorsCore, hl, hf]
+    · intro fuel; simp only [successorsCore, hl, hf, setupCfg]
     · cases o.reverse <;> rfl
   | some w0 =>
     obtain ⟨hex, hst⟩ := stackOK_readStepwise wf w0
-    refine ⟨_, ⟨(d.readStepwise w0 true).1.reverse, w0.reverse,
-      (match o.reverse with | true => none | false => some first), !o.strict⟩, cok, ?_, ?_, ?_, ?_, rfl⟩
+    refine ⟨first, last, ⟨(d.readStepwise w0 true).1.reverse, w0.reverse,
+      (match o.reverse with | true => none | false => some first), !o.strict⟩, hf, hl, cok,
+      ?_, ?_, ?_, ?_, rfl⟩
     · refine ⟨hst, ?_, ?_⟩
       · intro ch hch
         exact hperm.mem_iff.mpr (hin w0 rfl ch (List.mem_reverse.mp hch))
@@ -620,7 +630,8 @@ theorem successorsCore_setup {d : DFA σ α} (wf : d.WF) (hd : d.IsDict) (hnd : 
         cases o.reverse <;> intro ha hmem
         · cases ha; exact hmem
         · cases ha
-    · simp only [successorsCore, hl, hf]
+    · intro fuel
+      simp only [successorsCore, hl, hf, setupCfg]
       cases hrs : d.readStepwise w0 true with
       | mk tr ex =>
         rw [hrs] at hex
